@@ -251,10 +251,15 @@ def main(engine_name, argv=None):
     if not args.no_selftest and agg['runs']:
         st = determinism_selftest(engine_name, eng, verif_seed, agg, cfg['selftest'], args.tier)
         agg['selftest'] = st
-        if not st['ok']:
+        if not st['ok'] and not agg['violations']:
             print('HARNESS-NONDETERMINISM: %s' % json.dumps(st)[:600], flush=True)
             _write_evidence(eng, prop, args, verif_seed, agg, time.time() - t0, explore_s, harness=True)
             return 2
+        if not st['ok']:
+            # runs differ between executions AND violations were found: the system under test itself
+            # behaves differently from execution to execution (e.g. state keyed by object addresses).
+            # The violations are reported below, each only after its replay reproduced.
+            print('NOTE property=%s event logs of sampled runs differ between executions: %s' % (prop, json.dumps(st['mismatches'])[:300]), flush=True)
 
     # ---- violations: classify against the known findings, minimise, write replay files
     from simkit import universe
